@@ -1,6 +1,7 @@
 package seq
 
 import (
+	"strings"
 	"testing"
 
 	"pgregory.net/rapid"
@@ -51,6 +52,11 @@ func genC05(t *rapid.T) Case {
 	c := Case{Prof: "c05", Roots: rapid.IntRange(1, 2).Draw(t, "roots"), MaxDir: 100, Others: rapid.IntRange(0, 2).Draw(t, "others")}
 	c.Keys = GenKeys(t, 2, 3, false)
 	c.KeysHex = GenBinKeys(t)
+	// now and then a key whose version record is larger than a megabyte (Badger keeps such values in its
+	// value log and treats their size differently)
+	if rapid.IntRange(0, 19).Draw(t, "hugeKey") == 0 {
+		c.Keys[0] = strings.Repeat("K", rapid.SampledFrom([]int{1<<20 - 41, 1<<20 - 40, 1<<20 + 17, 2<<20 + 5}).Draw(t, "hugeKeyLen"))
+	}
 	cross := rapid.Bool().Draw(t, "crossProcess")
 	nseg := rapid.IntRange(2, 4).Draw(t, "segments")
 	for s := 0; s < nseg; s++ {
